@@ -87,6 +87,7 @@ def run_real_op(v, op):
     kind = op['op']
     try:
         if kind == 'errors':
+            _ = v.errors          # the property itself is read as well (it rebuilds the handler's tree)
             return {'ret': ('rendered', unordered(c13.canon_tree(c13.TagHandler()(v._errors)))), 'exc': None}
         doc = copy.deepcopy(op['doc'])
         kw = {}
